@@ -1,6 +1,7 @@
 //go:build verif
 
 //verif:dir p2p/net/upgrader
+//verif:also C12 VerifC04aUpgrade
 //verif:hook p2p/net/upgrader upgrader.setupSecurity
 //verif:hook p2p/net/upgrader upgrader.setupMuxer
 //verif:hook p2p/net/pnet NewProtectedConn
@@ -29,7 +30,12 @@ import (
 
 type vC04conn struct {
 	manet.Conn
-	closed int
+	closed  int
+	limited bool // a relayed connection with limits: the transport marks it
+}
+
+func (c *vC04conn) Stat() network.ConnStats {
+	return network.ConnStats{Stats: network.Stats{Limited: c.limited}}
 }
 
 func (c *vC04conn) Close() error                  { c.closed++; return nil }
@@ -61,8 +67,8 @@ type vC04muxed struct {
 	closed int
 }
 
-func (m *vC04muxed) Close() error                                  { m.closed++; return m.under.Close() }
-func (m *vC04muxed) CloseWithError(network.ConnErrorCode) error    { m.closed++; return m.under.Close() }
+func (m *vC04muxed) Close() error                               { m.closed++; return m.under.Close() }
+func (m *vC04muxed) CloseWithError(network.ConnErrorCode) error { m.closed++; return m.under.Close() }
 
 type vC04scope struct {
 	network.ConnManagementScope
@@ -111,7 +117,7 @@ func VerifC04aUpgrade() {
 	force := vBool()
 	saved := ipnet.ForcePrivateNetwork
 	ipnet.ForcePrivateNetwork = force
-	raw := &vC04conn{}
+	raw := &vC04conn{limited: vBool()}
 	pnet.VerifHook_NewProtectedConn = func(psk ipnet.PSK, conn net.Conn) (net.Conn, error) {
 		if failPnet {
 			return nil, errors.New("pnet")
@@ -163,6 +169,7 @@ func VerifC04aUpgrade() {
 	vAssert(sc.hasPeer, "admitted connection is attached to a peer scope")
 	tc := c.(*transportConn)
 	vAssert(tc.scope == network.ConnManagementScope(sc), "the returned connection owns exactly this scope")
+	vAssert(tc.Stat().Limited == raw.limited, "the upgraded connection carries the Limited mark of the connection it was built on - also inside a private network - so a limited relayed connection is never taken for a full one")
 	if vBool() {
 		tc.Close()
 	} else {
